@@ -18,7 +18,7 @@ PROPERTY = 'C14'
 RULE = ('random constant expressions of depth <= 5 over all arithmetic, comparison, equality, logical and unary operators, every legal `is` cast, '
         '?? and const-variable references, literals from the boundary grid of the word size (in range for the word), used as printed value, '
         'branch condition, declaration initialiser and !truth_is_defeat argument; each compiled in constant form and as run-time twin at word '
-        'sizes 2,3,4; non-trivial = the expression has >= 2 operators and hidc folded it completely; distinct by (expression text, word)')
+        'sizes 2,3,4; 40% of the programs also mix run-time operands (an effectful call tick(), a variable) into the constant expressions, use constant (sometimes zero) divisors under run-time dividends, and loops whose condition folds to false; non-trivial = the program has >= 2 operators over constant operands; distinct by (program text, word)')
 ASSUMPTIONS = common.ISA_ASSUMPTIONS[:3] + ['the twin replaces each literal v by (zz + v) / ((zz + v) is byte) / (zz == 0) with a mutable global zz = 0']
 REQUIRED_HIDC_FUNCTIONS = ['ast/operators:ArithmeticOp.simplify', 'ast/operators:BooleanOp.simplify']     # M-COV: deciding code never entered => inconclusive
 MIN_NONTRIVIAL = {'quick': 1200, 'thorough': 10000}
@@ -40,6 +40,10 @@ class CGen:
         self.ints = [0, 1, 2, 3, 7, 10, 100, 127, 128, 255, 256, 1000, hi, hi - 1, hi // 2, 12345 % hi]
         self.lo, self.hi = lo, hi
         self.consts = {}
+        self.runtime = False
+        self.tick = Func('tick', [('k', INT, False)], INT, [ExprStmt(Call('write', [Lit(BYTE, ord('t'), keep=True)])),
+                                                               OpAssign(Var('tn', INT), '+', Lit(INT, 1, keep=True)),
+                                                               Ret(Bin('+', Bin('%', Var('tn', INT), Lit(INT, 3, keep=True)), Var('k', INT)))])
 
     def lit(self, t):
         r = self.r
@@ -65,11 +69,24 @@ class CGen:
         return Lit(BOOL, r.random() < 0.5)
 
     def num(self, d):
-        return self.expr(self.r.choice([INT, INT, BYTE]), d)
+        r = self.r
+        if self.runtime and r.random() < 0.18:
+            # a run-time operand next to constants: an effectful call or a variable hidc cannot fold
+            k = r.random()
+            if k < 0.5:
+                return Call(self.tick, [Lit(INT, r.randint(0, 3))])
+            if k < 0.8:
+                return Var('rv', INT)
+            return Bin(r.choice(['+', '*']), Var('rv', INT), Lit(INT, r.randint(0, 2)))
+        return self.expr(r.choice([INT, INT, BYTE]), d)
 
     def expr(self, t, d):
         for _ in range(20):
             e = self._expr(t, d)
+            if not is_const(e):
+                if self.safe and not self.exact(e):
+                    continue
+                return e
             v = const_eval(e)
             if v is None:
                 if self.r.random() < 0.03:
@@ -100,6 +117,9 @@ class CGen:
         if t == INT:
             if c < 0.55:
                 op = r.choice(['+', '-', '*', '/', '%', '+', '-', '*'])
+                if op in '/%' and self.runtime and r.random() < 0.25:
+                    # run-time dividend, constant divisor (sometimes zero: must then fault at run time in both forms)
+                    return Bin(op, Var('rv', INT), r.choice([Lit(INT, 0), Bin('-', Lit(INT, 2), Lit(INT, 2)), Lit(INT, 3), Lit(INT, 1)]))
                 return Bin(op, self.num(d - 1), self.num(d - 1))
             if c < 0.7:
                 return Un(r.choice(['-', '+']), self.num(d - 1))
@@ -162,16 +182,21 @@ def count_ops(e):
     return sum(1 for x in A.walk_expr(e) if isinstance(x, (Bin, Un, Cast, Spec)))
 
 
-def build(stmts_exprs, consts):
+def build(stmts_exprs, consts, tick):
     """one program: const declarations + for each (expr, usage) a statement printing it"""
     body = []
     for n, (t, _, init) in consts.items():
         body.append(Decl(n, t, init, const=True))
     W = lambda *a: ExprStmt(Call('write', list(a)))     # noqa: E731
     sep = W(Lit(BYTE, ord(';'), keep=True))
+    body.insert(0, Decl('rv', INT, Lit(INT, 5, keep=True)))
     k = 0
     for e, usage in stmts_exprs:
         k += 1
+        if usage == 'loop':
+            # a loop whose condition folds to false must simply be skipped (and what follows it must still run)
+            body += [While(e, [W(Lit(BYTE, ord('L'), keep=True))]), W(Lit(BYTE, ord('a'), keep=True)), sep]
+            continue
         pr = e if e.t != BYTE else Cast(e, INT)
         if usage == 'value' or e.t != BOOL:
             if usage == 'decl':
@@ -187,13 +212,13 @@ def build(stmts_exprs, consts):
         else:
             body.append(Try([ExprStmt(Call('!truth_is_defeat', [e])), W(Lit(BYTE, ord('F'), keep=True))], 'stop', [W(Lit(BYTE, ord('T'), keep=True))]))
         body.append(sep)
-    return Program([], [Func('@is_you', [], EMPTY, body)])
+    return Program([Decl('tn', INT, Lit(INT, 0, keep=True))], [Func('@is_you', [], EMPTY, body), tick])
 
 
 def check_items(res, items, consts, word, lo, hi):
     CompilerError, _ = env.compiler_error_types()
     if True:
-        prog = build(items, consts)
+        prog = build(items, consts, CGen(random.Random(0), 8 * word, True).tick)
         src_c = A.render(prog)
         src_v = A.render(prog, opaque=True)
         res['evaluations'] += 1
@@ -223,7 +248,7 @@ def check_items(res, items, consts, word, lo, hi):
             runner.count(res, 'accepted_with_constant_zero_divisor')
         if oc.stream == ov.stream and oc.klass == ov.klass:
             runner.count(res, 'pairs_identical')
-            if all(is_const(e) for e, _ in items) and sum(count_ops(e) for e, _ in items) >= 2:
+            if sum(count_ops(e) for e, _ in items) >= 2:
                 res['nontrivial'].append(runner.case_id(src_c, word))
                 if len(res['samples']) < 2:
                     res['samples'].append({'constant_form': src_c[:700], 'twin': src_v[:500], 'word': word, 'output': oc.out[:80].decode('latin-1')})
@@ -265,9 +290,18 @@ def run_shard(spec):
                 v = bool(v) if not isinstance(v, (bytes, bytearray)) else len(v) != 0
             g.consts[f'k{j}'] = (t, v, init)
         items = []
+        g.runtime = r.random() < 0.4
         for _ in range(r.randint(3, 8)):
             t = r.choice([INT, INT, BYTE, BOOL, BOOL])
             usage = r.choice(['value', 'branch', 'decl', 'tid'])
+            if t == BOOL and r.random() < 0.15:
+                was = g.runtime
+                g.runtime = False
+                e = g.expr(BOOL, r.randint(1, 4))
+                g.runtime = was
+                if is_const(e) and const_eval(e) is False and not spec_problem(e, 'tid'):
+                    items.append((e, 'loop'))
+                    continue
             e = g.expr(t, r.randint(1, 5))
             for _ in range(10):
                 if not spec_problem(e, usage):
